@@ -200,11 +200,36 @@ def single_hash(ctx, tk):
     ga = ctx.fa(g)
     for r in ga.cfg.returns():
         tm = ga.term(r.ast.value, r)
-        ok = (tm.k == "bin" and tm.a[0] == "%" and tm.a[1].k == "param" and attr_chain(tm.a[2]) == (g.params[0], "_mod")) or \
-            (np_call(tm, {"mod", "remainder"}) and len(tm.a[1]) == 2 and attr_chain(tm.a[1][1]) == (g.params[0], "_mod"))
+        def _is_mod(x):
+            if x.k == "call" and x.a[0].k == "global" and x.a[0].a[0] == "int" and x.a[1]:
+                x = x.a[1][0]
+            return attr_chain(x) == (g.params[0], "_mod")
+        ok = (tm.k == "bin" and tm.a[0] == "%" and tm.a[1].k == "param" and _is_mod(tm.a[2])) or \
+            (np_call(tm, {"mod", "remainder"}) and len(tm.a[1]) == 2 and _is_mod(tm.a[1][1]))
         bad = np_call(tm, {"fmod"}) is not None
         ctx.decide("C11.d", g, "the hash is key modulo the table's modulus, i.e. a bucket number in [0, modulus) also for negative keys", True if ok else (False if bad else None),
                    "`%s`: np.fmod takes the sign of the key, so negative keys get negative bucket numbers that disagree with the sorted bucket layout" % (tm,), node=r.ast, engine="KB")
+    # KB (NEP 50): a numpy scalar is a strong operand.  `int64_queries % np.uint64(m)` has no common integer type and comes
+    # back float64 - unusable as a bucket index - while a Python int modulus is weak and keeps the queries' own integer type
+    for r in ga.cfg.returns():
+        tm = ga.term(r.ast.value, r)
+        if not (tm.k == "bin" and tm.a[0] == "%"):
+            continue
+        m_op = tm.a[2]
+        weak = m_op.k == "call" and m_op.a[0].k == "global" and m_op.a[0].a[0] == "int"
+        strong_src = None
+        if not weak:
+            gm = ctx.program.funcs.get(HT + "_get_mod")
+            if gm is not None:
+                gma = ctx.fa(gm)
+                for rr in gma.cfg.returns():
+                    t2 = gma.term(rr.ast.value, rr)
+                    if t2.k == "call" and ((attr_chain(t2.a[0]) or ("",))[-1] in ("dtype", "uint64", "int64", "uint32", "int32", "intp", "uint8", "int8", "uint16", "int16") or
+                                           (t2.a[0].k == "attr" and t2.a[0].a[1] == "type")):
+                        strong_src = t2
+        ctx.decide("C11.d", g, "the modulus is a weak (Python int) operand of the hash, so queries of any integer dtype hash to integers", True if weak else (False if strong_src is not None else None),
+                   "the default modulus is the numpy scalar `%s`: an int64 query (a Python list, np.array([3, 10])) on a uint64-keyed table hashes through float64 and the bucket lookup "
+                   "raises IndexError" % (strong_src,), node=r.ast, key="weak-modulus", engine="KB")
     # keys handed over as buckets: the modulus is their number of rows
     f0 = ctx.func(HT + "__init__")
     fa0 = ctx.fa(f0)
